@@ -8,6 +8,7 @@ import AcraModel.Sql.Forms
 import AcraModel.Sql.Grammar
 import AcraModel.Sql.ExprTokens
 import AcraModel.Sql.SelectRoundTrip
+import AcraModel.Sql.SelectTokens
 /-!
 # C13 — re-serialised statements mean the same as the statements received
 
@@ -545,6 +546,14 @@ theorem select_format_injective (s₁ s₂ : Sel) (h₁ : s₁.Ok) (h₂ : s₂.
   rw [h, select_roundtrip s₂ h₂] at a
   injection a with a
   exact a.symm
+
+/-- **Nothing is lost between the statement received and the statement sent on** (SELECT core). Whatever token sequence
+the statement parser accepts (tokens as the tokenizer yields them), the printed form of the statement it returns holds
+exactly the value-carrying tokens of the input – every literal, column, function and table name and alias, in the same
+order – in whatever clause they stand. (The converse direction of `select_roundtrip`: that one starts from a tree, this
+one from the text.) -/
+theorem select_keeps_lexemes (ts : List STok) (s : Sel) (hok : AllOkS ts) (h : parseSel ts = some s) :
+    lexS (stoks s) = lexS ts := parseSel_keeps hok h
 
 private def exSel : Sel :=
   { distinct := true
